@@ -142,6 +142,24 @@ func (p *regExpParser) scanGroup() {
 
 // {n} {n,} {n,m}: re2 takes a count written with leading zeros as literal text, so drop them.
 func (p *regExpParser) scanRepeatCount() {
+	// Only {n} {n,} {n,m} is a quantifier; any other { stands for itself and what follows is left alone.
+	str := p.str[p.chrOffset:]
+	end := 0
+	for end < len(str) && isDecimalDigit(rune(str[end])) {
+		end++
+	}
+	if end == 0 {
+		return
+	}
+	if end < len(str) && str[end] == ',' {
+		end++
+		for end < len(str) && isDecimalDigit(rune(str[end])) {
+			end++
+		}
+	}
+	if end >= len(str) || str[end] != '}' {
+		return
+	}
 	for {
 		for p.chr == '0' && p.offset < p.length && isDecimalDigit(rune(p.str[p.offset])) {
 			p.read()
